@@ -159,14 +159,15 @@ PROPS["C10"] = dict(
 )
 
 PROPS["C14"] = dict(
-    units=["sixel", "sixel_threads", "sixel_layers"],
+    units=["sixel", "sixel_threads", "sixel_layers", "dcs_sixel"],
     trusted_base=COMMON_TRUST + [
         "std thread semantics behind the two assumed specs of the abstract handle: JoinHandle::is_finished answers true only for a terminated thread and never blocks; join on a terminated thread returns at once with the closure's value",
+        "thread::spawn in execute_dcs: assumed to return a handle whose join() yields what the closure returns (stub vx_spawn_decode, unit dcs_sixel); that the closure calls Sixel::parse_from on the payload is read from the replaced statement, not proved",
         "O1 stub vx_feed_chars: the `for ch in data.chars() { self.parse_char(ch)? }` shell of SixelParser::parse_from (&str iteration) is assumed to be a sequence of parse_char steps (each proved to keep the row invariant)",
         "the sixel palette (Palette::{len,get_color,set_color_rgb,set_color_hsl}) is used through stubs that only track its length; Buffer::get_font_dimensions (font table lookup), Sixel::get_screen_rect and Rectangle::contains_rect are assumed total",
         "sixel payloads are shorter than 2^24 data characters",
     ],
-    unverified_remainder=["Buffer::update_sixel_threads: the image list after a poll is proved to be deliver(old list, queue, consumed handles): the finished decodes of the consumed queue prefix placed one after the other in arrival order, each placement removing exactly the older images the new one fully covers and keeping the order of the others (the two rectangle helpers get_screen_rect / contains_rect are uninterpreted functions of their arguments). File loading (unit sixel_layers): the statements of parse_with_parser that turn the image list into image layers are proved to produce one layer per image in arrival order with the image's position as offset; the wait loop in front of them (sleep / poll until the queue is empty) and execute_dcs (where a decode thread is spawned and queued) are NOT under contract",
+    unverified_remainder=["Buffer::update_sixel_threads: the image list after a poll is proved to be deliver(old list, queue, consumed handles): the finished decodes of the consumed queue prefix placed one after the other in arrival order, each placement removing exactly the older images the new one fully covers and keeping the order of the others (the two rectangle helpers get_screen_rect / contains_rect are uninterpreted functions of their arguments). File loading (unit sixel_layers): the statements of parse_with_parser that turn the image list into image layers are proved to produce one layer per image in arrival order with the image's position as offset; the wait loop in front of them is proved to leave only with an empty queue (its termination is not: it sleeps until the threads finish). Unit dcs_sixel: the sixel branch of Parser::execute_dcs appends exactly one handle at the back of the queue and does not touch the image list (thread::spawn is an O1 stub yielding an abstract handle; the parameter scan in front of the branch is not part of the slice)",
                           "consistency with a declared raster size beyond the SIXEL_MAX_DIM bound"],
     explanation="SixelParser: the invariant 'every pixel row holds whole RGBA pixels' is preserved by translate_sixel_to_pixel, parse_sixel_data and parse_char in all four states, and "
                 "parse_from is proved to return picture_data.len() == 4 * width * height for every payload. Buffer::update_sixel_threads is proved against an abstract thread queue whose "
